@@ -12,6 +12,7 @@ use std::cmp::PartialEq;
 
 /// Default struct for storing datetime indexed discount factors (DFs).
 #[derive(Debug, Clone, Deserialize, Serialize, PartialEq)]
+#[serde(from = "CurveDFDataModel<T, U>")]
 pub struct CurveDF<T: CurveInterpolation, U: DateRoll> {
     pub(crate) nodes: NodesTimestamp,
     pub(crate) interpolator: T,
@@ -20,6 +21,35 @@ pub struct CurveDF<T: CurveInterpolation, U: DateRoll> {
     pub(crate) modifier: Modifier,
     pub(crate) index_base: Option<f64>,
     pub(crate) calendar: U,
+}
+
+/// The stored form of a [`CurveDF`]: the same fields, in the same order.
+#[derive(Deserialize)]
+struct CurveDFDataModel<T, U> {
+    nodes: NodesTimestamp,
+    interpolator: T,
+    id: String,
+    convention: Convention,
+    modifier: Modifier,
+    index_base: Option<f64>,
+    calendar: U,
+}
+
+impl<T: CurveInterpolation, U: DateRoll> From<CurveDFDataModel<T, U>> for CurveDF<T, U> {
+    // Interpolation requires nodes in ascending date order: a loaded curve is sorted like a constructed one.
+    fn from(model: CurveDFDataModel<T, U>) -> Self {
+        let mut nodes = model.nodes;
+        nodes.sort_keys();
+        Self {
+            nodes,
+            interpolator: model.interpolator,
+            id: model.id,
+            convention: model.convention,
+            modifier: model.modifier,
+            index_base: model.index_base,
+            calendar: model.calendar,
+        }
+    }
 }
 
 /// Assigns methods for returning values from datetime indexed Curves.
